@@ -42,6 +42,9 @@ CHECKS.update({
 CHECKS.update({
  "C19": ("lp_dist with symbolic weights (float/np.zeros shadowed; x**(1/p) as constrained fresh variable): defining equality, symmetry, zero iff equal distributions, invariance under reordering/condensing/rescaling by a symbolic factor, triangle inequality for p=1 and 'inf' as z3 queries; BallotGraph(profile) node weights symbolic; BallotGraph(n) structure n=2..6 by direct evaluation (labelled, no symbolic input).", "§4 C19"),
 })
+CHECKS.update({
+ "C18": ("PARTIAL: load_scottish only. The function is executed on a symbolic table (csv/os/open in votekit.cvr_loaders stubbed; candidate count, seats, multiplicities and candidate numbers symbolic integers): DataError iff metadata inconsistent, returned seats/ward/names/parties as declared, every ranking the declared mapping of its numbers with the summed multiplicity. load_csv (pandas C tokenizer, groupby) and PreferenceProfile.to_csv (csv C writer) need concrete bytes: not reachable by this technique, no claim made.", "§4 C18, §7"),
+})
 NOT_APPLICABLE = {}
 def main():
     props = [json.loads(l)["id"] for l in open(os.path.join(ROOT, "properties.jsonl"))]
